@@ -70,10 +70,21 @@ class C01(core.Check):
     def requests(self, case: dict, impl: Any) -> List[str]:
         if "internals" not in impl or impl.get("chop_error") or impl.get("unrealisable") or impl.get("extreme"):
             return []
-        return [pc.model_request(impl["internals"], impl["chops"])]
+        reqs = [pc.model_request(impl["internals"], impl["chops"])]
+        m3 = (impl.get("third") or {}).get("model")
+        if m3:
+            # the write after the late chops against a fresh model run on all chops placed so far (M-HIST)
+            reqs.append(pc.model_request(m3["internals"], m3["chops"]))
+        return reqs
 
     def compare(self, case: dict, impl: Any, model: List[str]) -> Optional[str]:
-        return pc.compare_with_model(impl, model[0], level=self.compare_level)
+        why = pc.compare_with_model(impl, model[0], level=self.compare_level)
+        m3 = (impl.get("third") or {}).get("model")
+        if why is None and m3 and len(model) > 1:
+            why = pc.compare_with_model(m3, model[1], level=self.compare_level)
+            if why:
+                why = "write after late chops (session of M-HIST): " + why
+        return why
 
     def oracle(self, case: dict, impl: Any) -> List[dict]:
         out: List[dict] = []
